@@ -318,7 +318,7 @@ CHECKS["C11"] = {
             "result invalid iff no live element and no zero; == zero if empty with zero; == value + zero for one live element with zero; otherwise "
             "== sum of exactly the live elements with the zero bit clear. states = distinct result traces; transitions = result ticks; "
             "non-trivial = >= 3 live elements and a cycle containing both a structural change and a value update. "
-            "Live zero: the same with a zero that is a time-series ticking with a new value in every cycle; the empty result is the current zero and a "
+            "Pending keys: keys created without a value (live but not valid) are not elements of the fold, whenever they appear. Live zero: the same with a zero that is a time-series ticking with a new value in every cycle; the empty result is the current zero and a "
             "singleton is combine(value, current zero), also after the tree was wider and shrank back.",
     "bounds": {"quick": "add_: L<=2 x T=3 over 8 ops (+zero/-zero), L<=3 x T=2; node/sub-graph: L=1 x T=4 over 11 ops; TSL: L<=2 x T=3",
                "thorough": "add_: L<=2 x T=3 over 11 ops, L=1 x T=5; node/sub-graph: L<=2 x T=3 and L=1 x T=5; > 64 live elements: L=1 x T=4"},
